@@ -450,6 +450,8 @@ use {debug_detail, man_link, new_flag, syscall};
 
 /// Lock `mutex` clearing any poison set.
 fn lock<'a, T>(mutex: &'a std::sync::Mutex<T>) -> std::sync::MutexGuard<'a, T> {
+    #[cfg(all(a10_verif, any(target_os = "android", target_os = "linux")))]
+    crate::io_uring::verif_hooks::yield_point(crate::io_uring::verif_hooks::YIELD_LOCK);
     match mutex.lock() {
         Ok(guard) => guard,
         Err(err) => {
@@ -462,6 +464,8 @@ fn lock<'a, T>(mutex: &'a std::sync::Mutex<T>) -> std::sync::MutexGuard<'a, T> {
 /// Same as [`lock`], but doesn't block if the mutex is locked.
 #[cfg(any(target_os = "android", target_os = "linux"))]
 fn try_lock<'a, T>(mutex: &'a std::sync::Mutex<T>) -> Option<std::sync::MutexGuard<'a, T>> {
+    #[cfg(a10_verif)]
+    crate::io_uring::verif_hooks::yield_point(crate::io_uring::verif_hooks::YIELD_TRY_LOCK);
     match mutex.try_lock() {
         Ok(guard) => Some(guard),
         Err(std::sync::TryLockError::Poisoned(err)) => {
